@@ -102,7 +102,6 @@ fn icc_varint_contract() {
         Err(_) => assert!(!complete, "[C18,C01] varint fails only when the stream ends inside the value"),
     }
     kani::cover!(matches!(r, Ok(v) if v >= (1u64 << 62)));
-    kani::cover!(r.is_err());
 }
 
 // ------------------------------------------------------------------------------------------------
@@ -186,7 +185,6 @@ fn icc_decode_total_small() {
         assert!(out.len() as u64 <= declared.max(128), "[C18] decoded profile never exceeds the declared size");
     }
     kani::cover!(r.is_ok());
-    kani::cover!(r.is_err());
 }
 
 #[kani::proof]
@@ -202,23 +200,35 @@ fn canary() {
 // byte -- is symbolic, and the whole decoded profile is compared with an executable specification
 // written from the definition (reference semantics: libjxl UnpredictICC / LinearPredictICCValue).
 // Layout of an encoded stream:  varint(output_size) varint(commands_size) commands data.
+//
+// The stream is assembled in a [[u8; 64]; N] (viewed flat): CBMC keeps arrays of at most 64 elements
+// field-sensitive, so the concrete command bytes really are constants during symbolic execution.
 // ================================================================================================
-fn enc_varint(mut v: u64, out: &mut Vec<u8>) {
-    loop {
-        let b = (v & 0x7f) as u8;
-        v >>= 7;
-        if v == 0 { out.push(b); break; }
-        out.push(b | 0x80);
-    }
-}
+const ICC_H: usize = 128;
 
-fn icc_stream(output_size: u64, commands: &[u8], data: &[u8]) -> Vec<u8> {
-    let mut s = Vec::with_capacity(24 + commands.len() + data.len());
-    enc_varint(output_size, &mut s);
-    enc_varint(commands.len() as u64, &mut s);
-    s.extend_from_slice(commands);
-    s.extend_from_slice(data);
-    s
+struct IccStream { buf: [[u8; 64]; 12], len: usize }
+
+impl IccStream {
+    fn new() -> Self { IccStream { buf: [[0u8; 64]; 12], len: 0 } }
+    fn push(&mut self, b: u8) { self.buf[self.len / 64][self.len % 64] = b; self.len += 1; }
+    fn varint(&mut self, mut v: u64) {
+        loop {
+            let b = (v & 0x7f) as u8;
+            v >>= 7;
+            if v == 0 { self.push(b); break; }
+            self.push(b | 0x80);
+        }
+    }
+    fn bytes(&mut self, s: &[u8]) { let mut i = 0; while i < s.len() { self.push(s[i]); i += 1; } }
+    fn build(output_size: u64, commands: &[u8], data: &[u8]) -> Self {
+        let mut s = Self::new();
+        s.varint(output_size);
+        s.varint(commands.len() as u64);
+        s.bytes(commands);
+        s.bytes(data);
+        s
+    }
+    fn as_slice(&self) -> &[u8] { &self.buf.as_flattened()[..self.len] }
 }
 
 /// E.4.3: header byte i = residual + prediction from the bytes decoded so far (at most 128 of them).
@@ -243,61 +253,483 @@ fn icc_same(out: &[u8], exp: &[u8]) -> bool {
     true
 }
 
+/// Expected profile under construction.
+struct IccExp { b: [u8; 420], n: usize }
+
+impl IccExp {
+    /// starts with the 128-byte header decoded from the residuals `resid` (E.4.3)
+    fn with_header(output_size: usize, resid: &[u8]) -> Self {
+        let mut e = IccExp { b: [0u8; 420], n: ICC_H };
+        spec_icc_header(output_size as u32, &resid[..ICC_H], &mut e.b);
+        e
+    }
+    fn push(&mut self, v: u8) { self.b[self.n] = v; self.n += 1; }
+    fn bytes(&mut self, s: &[u8]) { let mut i = 0; while i < s.len() { self.push(s[i]); i += 1; } }
+    fn be32(&mut self, v: u32) {
+        self.push((v >> 24) as u8); self.push((v >> 16) as u8); self.push((v >> 8) as u8); self.push(v as u8);
+    }
+    /// one 12-byte tag-list entry: signature, offset, size (big endian)
+    fn tag(&mut self, name: &[u8], start: u32, size: u32) { self.bytes(&name[..4]); self.be32(start); self.be32(size); }
+    /// E.4.5 command 4: `payload.len()` bytes, element width `width`, predictor `order`, distance `stride`:
+    /// the payload is un-shuffled (width > 1), then byte i of the run = payload'[i] + byte (i mod width) of the
+    /// big-endian width-byte prediction of the element containing i; the prediction is made from the elements
+    /// 1, 2, 3 strides before the START of that element: p1, 2*p1 - p2, 3*p1 - 3*p2 + p3 modulo 2^(8*width).
+    fn predicted_run(&mut self, payload: &[u8], width: usize, order: u8, stride: usize) {
+        let start = self.n;
+        let un = if width == 1 { payload.to_vec() } else { spec_shuffle(payload, width) };
+        let mut i = 0;
+        while i < payload.len() {
+            let elem = start + (i / width) * width;
+            let p1 = self.be_value(elem - stride, width);
+            let pred: i64 = if order == 0 {
+                p1
+            } else if order == 1 {
+                2 * p1 - self.be_value(elem - 2 * stride, width)
+            } else {
+                3 * p1 - 3 * self.be_value(elem - 2 * stride, width) + self.be_value(elem - 3 * stride, width)
+            };
+            let modulus = 1i64 << (8 * width);
+            let m = ((pred % modulus) + modulus) % modulus;
+            let byte = ((m >> (8 * (width - 1 - i % width))) & 0xff) as u8;
+            self.b[start + i] = un[i].wrapping_add(byte);
+            i += 1;
+        }
+        self.n = start + payload.len();
+    }
+    fn be_value(&self, pos: usize, width: usize) -> i64 {
+        let mut v = 0i64;
+        let mut k = 0;
+        while k < width { v = v * 256 + self.b[pos + k] as i64; k += 1; }
+        v
+    }
+    fn as_slice(&self) -> &[u8] { &self.b[..self.n] }
+}
+
+/// concrete command stream under construction (at most 64 bytes: stays field-sensitive)
+struct IccCmds { b: [u8; 64], n: usize }
+impl IccCmds {
+    fn new() -> Self { IccCmds { b: [0u8; 64], n: 0 } }
+    fn push(&mut self, v: u8) -> &mut Self { self.b[self.n] = v; self.n += 1; self }
+    fn bytes(&mut self, s: &[u8]) -> &mut Self { let mut i = 0; while i < s.len() { self.push(s[i]); i += 1; } self }
+    fn as_slice(&self) -> &[u8] { &self.b[..self.n] }
+}
+
+fn icc_decode(output_size: usize, commands: &[u8], data: &[u8]) -> Result<Vec<u8>> {
+    let s = IccStream::build(output_size as u64, commands, data);
+    decode_icc(s.as_slice())
+}
+
+fn icc_expect_ok(r: &Result<Vec<u8>>, exp: &IccExp) {
+    kani::cover!(r.is_ok());
+    match r {
+        Ok(out) => assert!(icc_same(out, exp.as_slice()), "[C18] decoded profile = the profile the command stream describes, byte for byte"),
+        Err(_) => assert!(false, "[C18] a consistent ICC command stream decodes"),
+    }
+}
+
 // ---- header-only profiles -----------------------------------------------------------------------
 fn icc_check_header_only(size: usize, resid: &[u8; 128]) {
-    let s = icc_stream(size as u64, &[], &resid[..size]);
-    let r = decode_icc(&s);
+    let r = icc_decode(size, &[], &resid[..size]);
     let mut exp = [0u8; 128];
     spec_icc_header(size as u32, &resid[..size], &mut exp);
     match &r {
         Ok(out) => assert!(icc_same(out, &exp[..size]), "[C18] profile of at most 128 bytes = residuals + header prediction"),
         Err(_) => assert!(false, "[C18] a header-only stream with all its residuals decodes"),
     }
-    if size > 0 {
-        // one residual missing: rejected
-        let s = icc_stream(size as u64, &[], &resid[..size - 1]);
-        assert!(decode_icc(&s).is_err(), "[C18,C01] data stream shorter than the header is rejected");
-    }
 }
 
 #[kani::proof]
-#[kani::unwind(130)]
-fn icc_header_only() {
+#[kani::unwind(150)]
+fn icc_header_small() {
     let resid: [u8; 128] = kani::any();
     icc_check_header_only(0, &resid);
     icc_check_header_only(1, &resid);
     icc_check_header_only(44, &resid);
-    icc_check_header_only(127, &resid);
-    icc_check_header_only(128, &resid);
+    // one residual missing: rejected
+    assert!(icc_decode(1, &[], &resid[..0]).is_err(), "[C18,C01] data stream shorter than the header is rejected");
+    assert!(icc_decode(44, &[], &resid[..43]).is_err(), "[C18,C01] data stream shorter than the header is rejected");
     kani::cover!(resid[40] == b'S' && resid[41] == b'U');
 }
 
-// ---- main content ---------------------------------------------------------------------------------
-const ICC_H: usize = 128;
-
-/// Runs decode_icc on: empty tag list (varint 0), then `main` commands; data = 128 header residuals + `payload`.
-/// Returns (result, expected header).
-fn icc_run_main(output_size: usize, main: &[u8], data: &[u8]) -> (Result<Vec<u8>>, [u8; 128]) {
-    let mut commands = Vec::with_capacity(1 + main.len());
-    commands.push(0u8); // no tag list
-    commands.extend_from_slice(main);
-    let s = icc_stream(output_size as u64, &commands, data);
-    let mut hdr = [0u8; 128];
-    spec_icc_header(output_size as u32, &data[..ICC_H], &mut hdr);
-    (decode_icc(&s), hdr)
+#[kani::proof]
+#[kani::unwind(150)]
+fn icc_header_127() {
+    let resid: [u8; 128] = kani::any();
+    icc_check_header_only(127, &resid);
 }
 
 #[kani::proof]
-#[kani::unwind(130)]
-fn icc_cmd_copy() {
-    // command 1 (raw copy) of 5 bytes
+#[kani::unwind(150)]
+fn icc_header_128() {
+    let resid: [u8; 128] = kani::any();
+    icc_check_header_only(128, &resid);
+    assert!(icc_decode(128, &[], &resid[..127]).is_err(), "[C18,C01] data stream shorter than the header is rejected");
+}
+
+// ---- main content ---------------------------------------------------------------------------------
+#[kani::proof]
+#[kani::unwind(200)]
+fn icc_cmd_copy_shuffle() {
+    // no tag list; copy 5, 2-shuffle 5, 4-shuffle 7, 4-shuffle 2 (shorter than the width), 2-shuffle 1, copy 0
+    const P: usize = 5 + 5 + 7 + 2 + 1;
+    let data: [u8; ICC_H + P] = kani::any();
+    let r = icc_decode(ICC_H + P, &[0, 1, 5, 2, 5, 3, 7, 3, 2, 2, 1, 1, 0], &data);
+    let mut exp = IccExp::with_header(ICC_H + P, &data);
+    let d = &data[ICC_H..];
+    exp.bytes(&d[..5]);
+    exp.bytes(&spec_shuffle(&d[5..10], 2));
+    exp.bytes(&spec_shuffle(&d[10..17], 4));
+    exp.bytes(&spec_shuffle(&d[17..19], 4));
+    exp.bytes(&spec_shuffle(&d[19..20], 2));
+    icc_expect_ok(&r, &exp);
+}
+
+#[kani::proof]
+#[kani::unwind(240)]
+fn icc_cmd_xyz_common() {
+    // command 10, then every common-type command 16..=23, then 10 again
+    const OUT: usize = ICC_H + 20 + 8 * 8 + 20;
+    let data: [u8; ICC_H + 24] = kani::any();
+    let r = icc_decode(OUT, &[0, 10, 16, 17, 18, 19, 20, 21, 22, 23, 10], &data);
+    let mut exp = IccExp::with_header(OUT, &data);
+    exp.bytes(b"XYZ "); exp.be32(0); exp.bytes(&data[ICC_H..ICC_H + 12]);
+    let types: [&[u8; 4]; 8] = [b"XYZ ", b"desc", b"text", b"mluc", b"para", b"curv", b"sf32", b"gbd "];
+    let mut k = 0;
+    while k < 8 { exp.bytes(types[k]); exp.be32(0); k += 1; }
+    exp.bytes(b"XYZ "); exp.be32(0); exp.bytes(&data[ICC_H + 12..]);
+    icc_expect_ok(&r, &exp);
+}
+
+fn icc_predict_flags(width: usize, order: u8, explicit_stride: bool) -> u8 {
+    (width as u8 - 1) | (order << 2) | if explicit_stride { 16 } else { 0 }
+}
+
+/// Predicted runs `lo..hi` of the six runs of element width `w`, all in one profile: orders 0, 1, 2 with the implicit
+/// stride (= width) and orders 0, 1, 2 with explicit strides > width; every run length leaves a partial last element (w > 1).
+fn icc_predict_orders(w: usize, nums: [usize; 6], strides: [usize; 3], lo: usize, hi: usize) {
+    let mut total = 0;
+    let mut k = lo;
+    while k < hi { total += nums[k]; k += 1; }
+    let data_all: [u8; ICC_H + 60] = kani::any();
+    let data = &data_all[..ICC_H + total];
+    let mut c = IccCmds::new();
+    c.push(0);
+    let mut exp = IccExp::with_header(ICC_H + total, data);
+    let mut pos = ICC_H;
+    let mut k = lo;
+    while k < hi {
+        let order = (k % 3) as u8;
+        if k < 3 {
+            c.push(4).push(icc_predict_flags(w, order, false)).push(nums[k] as u8);
+            exp.predicted_run(&data[pos..pos + nums[k]], w, order, w);
+        } else {
+            c.push(4).push(icc_predict_flags(w, order, true)).push(strides[k - 3] as u8).push(nums[k] as u8);
+            exp.predicted_run(&data[pos..pos + nums[k]], w, order, strides[k - 3]);
+        }
+        pos += nums[k];
+        k += 1;
+    }
+    let r = icc_decode(ICC_H + total, c.as_slice(), data);
+    icc_expect_ok(&r, &exp);
+}
+
+#[kani::proof]
+#[kani::unwind(200)]
+fn icc_predict_w1() { icc_predict_orders(1, [3, 2, 4, 2, 3, 3], [2, 5, 31], 0, 6); }
+
+#[kani::proof]
+#[kani::unwind(200)]
+fn icc_predict_w2() { icc_predict_orders(2, [5, 3, 7, 3, 5, 5], [3, 5, 8], 0, 6); }
+
+#[kani::proof]
+#[kani::unwind(200)]
+fn icc_predict_w4_implicit() { icc_predict_orders(4, [9, 7, 10, 5, 6, 11], [5, 7, 12], 0, 3); }
+
+#[kani::proof]
+#[kani::unwind(200)]
+fn icc_predict_w4_explicit() { icc_predict_orders(4, [9, 7, 10, 5, 6, 11], [5, 7, 12], 3, 6); }
+
+#[kani::proof]
+#[kani::unwind(200)]
+fn icc_predict_flags_any() {
+    // [no tags; 4 flags num=0 (or: explicit stride 0); 1 x1] for EVERY flags byte: a zero-length run is accepted exactly
+    // for width code != 2 (width 3), order != 3 and -- because the explicit stride here is 0 < width -- bit 4 clear.
+    let f: u8 = kani::any();
+    let data: [u8; ICC_H + 1] = kani::any();
+    let r = icc_decode(ICC_H + 1, &[0, 4, f, 0, 1, 1], &data);
+    let valid = (f & 3) != 2 && ((f >> 2) & 3) != 3 && (f & 16) == 0;
+    if valid {
+        let mut exp = IccExp::with_header(ICC_H + 1, &data);
+        exp.push(data[ICC_H]);
+        icc_expect_ok(&r, &exp);
+    } else {
+        assert!(r.is_err(), "[C18,C01] width 3, order 3 and stride < width are rejected");
+    }
+    kani::cover!(valid && f >= 32);
+    kani::cover!(!valid && (f & 3) == 2);
+    kani::cover!(!valid && (f >> 2) & 3 == 3 && (f & 3) != 2);
+    kani::cover!(!valid && (f & 16) != 0 && (f & 15) == 0);
+}
+
+#[kani::proof]
+#[kani::unwind(200)]
+fn icc_predict_stride_reject() {
+    let data: [u8; ICC_H + 8] = kani::any();
+    // width 2, explicit stride 1
+    assert!(icc_decode(ICC_H + 3, &[0, 4, icc_predict_flags(2, 0, true), 1, 3], &data[..ICC_H + 3]).is_err(),
+            "[C18,C01] stride smaller than the width is rejected");
+    // width 4, explicit stride 3
+    assert!(icc_decode(ICC_H + 8, &[0, 4, icc_predict_flags(4, 1, true), 3, 8], &data).is_err(),
+            "[C18,C01] stride smaller than the width is rejected");
+    // width 1, stride 32 with 128 bytes decoded so far: 4 * stride >= bytes so far (stride 31 is accepted: icc_predict_w1)
+    assert!(icc_decode(ICC_H + 3, &[0, 4, icc_predict_flags(1, 0, true), 32, 3], &data[..ICC_H + 3]).is_err(),
+            "[C18,C01] 4 * stride >= number of bytes decoded so far is rejected");
+}
+
+#[kani::proof]
+#[kani::unwind(200)]
+fn icc_cmd_last_byte_any() {
+    // [no tags; c] for EVERY command byte c, no payload: only the common-type commands 16..=23 need nothing else
+    let c: u8 = kani::any();
+    let data: [u8; ICC_H] = kani::any();
+    let r = icc_decode(ICC_H + 8, &[0, c], &data);
+    if c >= 16 && c <= 23 {
+        let types: [&[u8; 4]; 8] = [b"XYZ ", b"desc", b"text", b"mluc", b"para", b"curv", b"sf32", b"gbd "];
+        let mut exp = IccExp::with_header(ICC_H + 8, &data);
+        exp.bytes(types[(c - 16) as usize]);
+        exp.be32(0);
+        icc_expect_ok(&r, &exp);
+    } else {
+        assert!(r.is_err(), "[C18,C01] unknown command, truncated command or missing payload is rejected");
+    }
+    kani::cover!(c == 23);
+    kani::cover!(c == 0);
+    kani::cover!(c == 10);
+    kani::cover!(c == 255);
+}
+
+#[kani::proof]
+#[kani::unwind(200)]
+fn icc_cmd_select_any() {
+    // [no tags; c 6] for EVERY command byte c with exactly 6 payload bytes: copy / 2-shuffle / 4-shuffle, else rejected
+    let c: u8 = kani::any();
+    let data: [u8; ICC_H + 6] = kani::any();
+    let r = icc_decode(ICC_H + 6, &[0, c, 6], &data);
+    if c >= 1 && c <= 3 {
+        let mut exp = IccExp::with_header(ICC_H + 6, &data);
+        if c == 1 { exp.bytes(&data[ICC_H..]); } else { exp.bytes(&spec_shuffle(&data[ICC_H..], if c == 2 { 2 } else { 4 })); }
+        icc_expect_ok(&r, &exp);
+    } else {
+        assert!(r.is_err(), "[C18,C01] any other command byte followed by 6 is rejected (6 = width 3 / unknown command / no payload)");
+    }
+    kani::cover!(c == 3);
+    kani::cover!(c == 4);
+    kani::cover!(c == 16);
+}
+
+#[kani::proof]
+#[kani::unwind(200)]
+fn icc_cmd_short_data() {
+    let c: u8 = kani::any();
+    let data: [u8; ICC_H + 6] = kani::any();
+    // EVERY command byte c followed by length 6 with only 5 payload bytes
+    assert!(icc_decode(ICC_H + 6, &[0, c, 6], &data[..ICC_H + 5]).is_err(), "[C18,C01] payload shorter than the announced length is rejected");
+    // predicted run of 3 bytes with 2 payload bytes
+    assert!(icc_decode(ICC_H + 3, &[0, 4, 0, 3], &data[..ICC_H + 2]).is_err(), "[C18,C01] payload shorter than the announced length is rejected");
+    // all commands and data consumed but one byte more than announced in output_size
+    assert!(icc_decode(ICC_H + 5, &[0, 1, 6], &data).is_err(), "[C18] decoded size different from output_size is rejected");
+}
+
+#[kani::proof]
+#[kani::unwind(200)]
+fn icc_copy_len_any() {
+    // [no tags; 1 n] for EVERY last byte n, 5 payload bytes, output_size 133: accepted exactly for n == 5
+    let n: u8 = kani::any();
     let data: [u8; ICC_H + 5] = kani::any();
-    let (r, hdr) = icc_run_main(ICC_H + 5, &[1, 5], &data);
-    let mut exp = [0u8; ICC_H + 5];
-    exp[..ICC_H].copy_from_slice(&hdr);
-    exp[ICC_H..].copy_from_slice(&data[ICC_H..]);
-    match &r {
-        Ok(out) => assert!(icc_same(out, &exp), "[C18] command 1 appends the next num data bytes unchanged"),
-        Err(_) => assert!(false, "[C18] consistent raw-copy stream decodes"),
+    let r = icc_decode(ICC_H + 5, &[0, 1, n], &data);
+    if n == 5 {
+        let mut exp = IccExp::with_header(ICC_H + 5, &data);
+        exp.bytes(&data[ICC_H..]);
+        icc_expect_ok(&r, &exp);
+    } else {
+        assert!(r.is_err(), "[C18,C01] too few bytes produced, payload too short, or unterminated varint: rejected");
+    }
+    kani::cover!(n == 4);
+    kani::cover!(n == 6);
+    kani::cover!(n >= 128);
+}
+
+// ---- tag list ---------------------------------------------------------------------------------------
+/// the tags whose size is implied to be 20 when the command carries no explicit size -- by NAME
+fn spec_icc_tag_implies_20(name: &[u8]) -> bool {
+    let n = [name[0], name[1], name[2], name[3]];
+    n == *b"rXYZ" || n == *b"gXYZ" || n == *b"bXYZ" || n == *b"kXYZ" || n == *b"wtpt" || n == *b"bkpt" || n == *b"lumi"
+}
+
+#[kani::proof]
+#[kani::unwind(200)]
+fn icc_tag_literal() {
+    // 1 tag, given literally (tagcode 1, no flags), then the 20 bytes it may point at
+    let data: [u8; ICC_H + 4 + 20] = kani::any();
+    let name = &data[ICC_H..ICC_H + 4];
+    let r = icc_decode(ICC_H + 4 + 12 + 20, &[2, 1, 0, 1, 20], &data);
+    let mut exp = IccExp::with_header(ICC_H + 4 + 12 + 20, &data);
+    exp.be32(1);
+    exp.tag(name, 128 + 12, if spec_icc_tag_implies_20(name) { 20 } else { 0 });
+    exp.bytes(&data[ICC_H + 4..]);
+    icc_expect_ok(&r, &exp);
+    kani::cover!(spec_icc_tag_implies_20(name));
+    kani::cover!(!spec_icc_tag_implies_20(name));
+}
+
+#[kani::proof]
+#[kani::unwind(200)]
+fn icc_tag_literal_overrun() {
+    // same with only 4 bytes after the tag list: an implied size of 20 overruns the profile
+    let data: [u8; ICC_H + 4 + 4] = kani::any();
+    let name = &data[ICC_H..ICC_H + 4];
+    let r = icc_decode(ICC_H + 4 + 12 + 4, &[2, 1, 0, 1, 4], &data);
+    if spec_icc_tag_implies_20(name) {
+        assert!(r.is_err(), "[C18] tag reaching beyond output_size is rejected (implied size 20 by tag name)");
+    } else {
+        let mut exp = IccExp::with_header(ICC_H + 4 + 12 + 4, &data);
+        exp.be32(1);
+        exp.tag(name, 128 + 12, 0);
+        exp.bytes(&data[ICC_H + 4..]);
+        icc_expect_ok(&r, &exp);
+    }
+    kani::cover!(name[0] == b'l' && name[1] == b'u' && name[2] == b'm' && name[3] == b'i');
+}
+
+#[kani::proof]
+#[kani::unwind(240)]
+fn icc_tag_flags_chain() {
+    // five literal tags: explicit start+size | explicit start | explicit size | neither | explicit start+size ending at output_size
+    const OUT: usize = ICC_H + 4 + 5 * 12 + 8;
+    let data: [u8; ICC_H + 5 * 4 + 8] = kani::any();
+    let n = |k: usize| &data[ICC_H + 4 * k..ICC_H + 4 * k + 4];
+    let r = icc_decode(OUT, &[6, 1 | 64 | 128, 10, 30, 1 | 64, 100, 1 | 128, 7, 1, 1 | 64 | 128, 150, 50, 0, 1, 8], &data);
+    let mut exp = IccExp::with_header(OUT, &data);
+    exp.be32(5);
+    exp.tag(n(0), 10, 30); // an explicit size wins over the name
+    let size2 = if spec_icc_tag_implies_20(n(1)) { 20 } else { 30 };
+    exp.tag(n(1), 100, size2);
+    exp.tag(n(2), 100 + size2, 7);
+    exp.tag(n(3), 100 + size2 + 7, if spec_icc_tag_implies_20(n(3)) { 20 } else { 7 });
+    exp.tag(n(4), 150, 50);
+    exp.bytes(&data[ICC_H + 20..]);
+    icc_expect_ok(&r, &exp);
+    kani::cover!(spec_icc_tag_implies_20(n(0)) && spec_icc_tag_implies_20(n(1)) && !spec_icc_tag_implies_20(n(3)));
+}
+
+#[kani::proof]
+#[kani::unwind(240)]
+fn icc_tag_size_mismatch() {
+    let data: [u8; ICC_H + 56] = kani::any();
+    // explicit start 150 + size 51 > output_size 200 (150 + 50 is accepted: icc_tag_flags_chain)
+    assert!(icc_decode(200, &[2, 4 | 64 | 128, 150, 51, 0, 1, 56], &data).is_err(), "[C18] tag reaching beyond output_size is rejected");
+    // chaining: 3 x wtpt after 128 + 4 + 36 bytes: 164+20, 184+20 > 200
+    assert!(icc_decode(200, &[4, 5, 5, 5, 0, 1, 32], &data[..ICC_H + 32]).is_err(), "[C18] chained tag reaching beyond output_size is rejected");
+}
+
+#[kani::proof]
+#[kani::unwind(420)]
+fn icc_tag_triples() {
+    // tagcode 2 (rTRC gTRC bTRC share start and size) and tagcode 3 (rXYZ gXYZ bXYZ at start, start+size, start+2 size)
+    const N: u32 = 21;
+    const OUT: usize = ICC_H + 4 + 21 * 12 + 16;
+    let data: [u8; ICC_H + 16] = kani::any();
+    let r = icc_decode(OUT, &[22, 2, 3, 2 | 64 | 128, 9, 33, 3 | 64 | 128, 11, 35, 3, 2, 3 | 128, 40, 0, 1, 16], &data);
+    let mut exp = IccExp::with_header(OUT, &data);
+    exp.be32(N);
+    let s0 = 128 + 12 * N;
+    exp.tag(b"rTRC", s0, 0); exp.tag(b"gTRC", s0, 0); exp.tag(b"bTRC", s0, 0);
+    exp.tag(b"rXYZ", s0, 20); exp.tag(b"gXYZ", s0 + 20, 20); exp.tag(b"bXYZ", s0 + 40, 20);
+    exp.tag(b"rTRC", 9, 33); exp.tag(b"gTRC", 9, 33); exp.tag(b"bTRC", 9, 33);
+    exp.tag(b"rXYZ", 11, 35); exp.tag(b"gXYZ", 46, 35); exp.tag(b"bXYZ", 81, 35);
+    // the next tag continues after the FIRST entry of the triple
+    exp.tag(b"rXYZ", 46, 20); exp.tag(b"gXYZ", 66, 20); exp.tag(b"bXYZ", 86, 20);
+    exp.tag(b"rTRC", 66, 20); exp.tag(b"gTRC", 66, 20); exp.tag(b"bTRC", 66, 20);
+    exp.tag(b"rXYZ", 86, 40); exp.tag(b"gXYZ", 126, 40); exp.tag(b"bXYZ", 166, 40);
+    exp.bytes(&data[ICC_H..]);
+    icc_expect_ok(&r, &exp);
+}
+
+#[kani::proof]
+#[kani::unwind(360)]
+fn icc_tag_shortcuts() {
+    // tagcodes 4..=20 in order; the first with explicit start 0; the command stream ends inside the tag list with
+    // exactly output_size bytes produced (valid end)
+    const OUT: usize = ICC_H + 4 + 17 * 12;
+    let data: [u8; ICC_H] = kani::any();
+    let r = icc_decode(OUT, &[18, 4 | 64, 0, 5, 6, 7, 8, 9, 10, 11, 12, 13, 14, 15, 16, 17, 18, 19, 20], &data);
+    let names: [&[u8; 4]; 17] = [b"cprt", b"wtpt", b"bkpt", b"rXYZ", b"gXYZ", b"bXYZ", b"kXYZ", b"rTRC", b"gTRC", b"bTRC",
+                                 b"kTRC", b"chad", b"desc", b"chrm", b"dmnd", b"dmdd", b"lumi"];
+    let mut exp = IccExp::with_header(OUT, &data);
+    exp.be32(17);
+    let (mut start, mut size) = (0u32, 0u32);
+    let mut k = 0;
+    while k < 17 {
+        if k > 0 { start += size; }
+        if spec_icc_tag_implies_20(names[k]) { size = 20; }
+        exp.tag(names[k], start, size);
+        k += 1;
+    }
+    assert!(start + size == 320);
+    icc_expect_ok(&r, &exp);
+}
+
+#[kani::proof]
+#[kani::unwind(200)]
+fn icc_tag_num_bound() {
+    // output_size 164: room for (164 - 128) / 12 = 3 tag entries
+    let data: [u8; ICC_H + 32] = kani::any();
+    let r = icc_decode(164, &[4, 0, 1, 32], &data);
+    let mut exp = IccExp::with_header(164, &data);
+    exp.be32(3);
+    exp.bytes(&data[ICC_H..]);
+    icc_expect_ok(&r, &exp);
+    assert!(icc_decode(164, &[5, 0, 1, 32], &data).is_err(), "[C18,C01] more tags announced than 12-byte entries fit into output_size: rejected");
+    // varint 1 = zero tags: the count is still written
+    let r = icc_decode(164, &[1, 0, 1, 32], &data);
+    let mut exp = IccExp::with_header(164, &data);
+    exp.be32(0);
+    exp.bytes(&data[ICC_H..]);
+    icc_expect_ok(&r, &exp);
+}
+
+#[kani::proof]
+#[kani::unwind(200)]
+fn icc_tag_invalid_code() {
+    // every tag command byte (any flag bits) whose tagcode is 21..=63
+    let t: u8 = kani::any();
+    kani::assume((t & 63) > 20);
+    let data: [u8; ICC_H + 8] = kani::any();
+    assert!(icc_decode(ICC_H + 4 + 12, &[2, t], &data).is_err(), "[C18,C01] unknown tagcode is rejected");
+    kani::cover!(t == 21);
+    kani::cover!(t == 255);
+}
+
+#[kani::proof]
+#[kani::unwind(200)]
+fn icc_tag_truncated() {
+    let data: [u8; ICC_H + 3] = kani::any();
+    // literal tag with only 3 data bytes left
+    assert!(icc_decode(ICC_H + 4 + 12, &[2, 1], &data).is_err(), "[C18,C01] literal tag without its 4 name bytes is rejected");
+    // explicit-start flag without the varint
+    assert!(icc_decode(ICC_H + 4 + 12, &[2, 4 | 64], &data).is_err(), "[C18,C01] tag command without its start varint is rejected");
+    // explicit-size flag without the varint
+    assert!(icc_decode(ICC_H + 4 + 12, &[2, 4 | 128], &data).is_err(), "[C18,C01] tag command without its size varint is rejected");
+}
+
+#[kani::proof]
+#[kani::unwind(200)]
+fn icc_tag_list_end_size() {
+    // the command stream ends inside the tag list (after the tag count / after one entry) although output_size = 200
+    // bytes were announced: libjxl rejects ("Wrong output size"), just like a short main section is rejected
+    let data: [u8; ICC_H] = kani::any();
+    let r = icc_decode(200, &[2], &data);
+    if let Ok(out) = &r {
+        assert!(out.len() == 200, "[C18] Ok only with exactly output_size bytes, also when the commands end inside the tag list");
     }
 }
